@@ -9,6 +9,8 @@ CONSTANTS
   Kinds = {"query", "response"}
   MaxEnv = 3
   MaxFaults = 2
+  MaxResign = 0
+  ResignMods = {"none", "id", "head", "body"}
 INVARIANT TypeOK
 INVARIANT GenuineAccepted
 INVARIANT AlteredRefused
